@@ -218,6 +218,27 @@ impl<'a> Bfs<'a> {
                                 return Err("data read back through read_slice / copy_to differs from what was written".into());
                             }
                             s.write_slice(&pat, 0).map_err(|e| format!("write_slice failed: {:?}", e))?;
+                            // the "up to count" stream forms from every start offset with counts
+                            // that reach past the end, fed by a source / drained into a sink that
+                            // could move more: they stop at the end of the accessor
+                            let ample = vec![0xA5u8; len + 24];
+                            for a in [0usize, 1, len / 2, len - 1] {
+                                if a >= len {
+                                    continue;
+                                }
+                                for count in [len - a, len - a + 1, len, len + 9] {
+                                    let mut src = &ample[..];
+                                    let n = s.read_volatile_from(a, &mut src, count).map_err(|e| format!("read_volatile_from({}, {}) failed: {:?}", a, count, e))?;
+                                    if n > len - a || ample.len() - src.len() != n {
+                                        return Err(format!("read_volatile_from(offset {}, count {}) on an accessor of {} bytes reports {} bytes and took {} from the source", a, count, len, n, ample.len() - src.len()));
+                                    }
+                                    let mut sink: Vec<u8> = Vec::new();
+                                    let m = s.write_volatile_to(a, &mut sink, count).map_err(|e| format!("write_volatile_to({}, {}) failed: {:?}", a, count, e))?;
+                                    if m > len - a || sink.len() != m {
+                                        return Err(format!("write_volatile_to(offset {}, count {}) on an accessor of {} bytes reports {} bytes and handed {} to the sink", a, count, len, m, sink.len()));
+                                    }
+                                }
+                            }
                             Ok(())
                         })();
                         vm_memory::verif_hooks::set_thread_observer(prev);
